@@ -19,4 +19,8 @@ CastAllowed(ev) == ev.out = "ok" /\ Eq(ev.wrapped, ev.plain)
 BoundaryAllowed(prev, ev) ==
   /\ prev.what = ev.what /\ prev.form = "tainted" /\ Eq(prev.in, ev.in)
   /\ prev.out = ev.out /\ Eq(prev.guest_saw, ev.guest_saw)
+
+\* compile-time side of the same sentence: a program that differs from an accepted one only in
+\* passing / returning the opaque form of the same values is accepted too (and vice versa)
+FormPairAllowed(ev) == ev.tainted = ev.opaque
 =============================================================================
